@@ -16,7 +16,8 @@ lines, escapes, `>>` or front matter):
            block-comment lines; a single newline around single-line blocks); end of document
   meta   : blanks after `>>`, around `:`, trailing blanks, trailing comment; synonyms of mode values
   section: number of `=` on both sides, closing run present or not, blanks around the name, trailing comment
-  step   : separator between pieces = 1..2 blanks, tab, line wrap (with leading blanks on the next line),
+  step   : a line wrap directly between two components (nothing else between them; LF or CRLF);
+           separator between pieces = 1..2 blanks, tab, line wrap (with leading blanks on the next line),
            trailing line comment + wrap, block comment (one-line or two-line) with a blank on either side;
            backslash escapes for marker characters (needed ones always, optional ones by the tape)
   text   : `>` + optional blank, continuation lines with or without `>`, escapes or raw markers
@@ -48,6 +49,45 @@ UNITS_ING = grec.UNITS_MASS + grec.UNITS_VOL + grec.UNITS_UNKNOWN
 UNITS_TIME = grec.UNITS_TIME
 TEXT_VALUES = grec.TEXT_VALUES + ["a big handful, more or less"]
 TEMP_UNITS = ["°C", "ºC", "°F", "C", "F"]
+
+# every accepted spelling of every standard metadata key (src/metadata.rs StdKey::from_str), main name
+# first, with values that pass the standard check of the key under both parsers (times: a bare number of
+# minutes or the unit-free `HhMm` form; an int is printed as a YAML integer under front matter)
+STD_KEYS = {
+    "title": (["title"], ["Pasta", "x y z"]),
+    "description": (["description", "introduction"], ["A simple dish", "it's"]),
+    "tags": (["tags", "tag"], ["quick, vegan", "dinner"]),
+    "author": (["author"], ["Ana", "Ana <https://example.org/ana>"]),
+    "source": (["source"], ["a book", "https://example.org/r"]),
+    "servings": (["servings", "serves", "yield"], [1, 2, 4, 12, "2|4", "6 people"]),
+    "course": (["course", "category"], ["dinner", "main"]),
+    "locale": (["locale"], ["en", "es_ES"]),
+    "time": (["time", "duration", "time required"], [45, "1h30m", "90m", "2h"]),
+    "prep time": (["prep time", "prep_time"], [10, "15m"]),
+    "cook time": (["cook time", "cook_time"], [30, "1h"]),
+    "difficulty": (["difficulty"], ["easy"]),
+    "cuisine": (["cuisine"], ["crème brûlée", "thai"]),
+    "diet": (["diet"], ["vegan"]),
+    "image": (["image", "images", "picture", "pictures"], ["a.png", "https://example.org/a.jpg"]),
+}
+SERVINGS_NAMES = STD_KEYS["servings"][0]
+
+
+def servings_of(v):
+    """Servings of a `servings`/`serves`/`yield` value: the leading number of each `|` alternative"""
+    if isinstance(v, int):
+        return [v]
+    out = []
+    for part in str(v).split("|"):
+        part = part.strip()
+        n = ""
+        for ch in part:
+            if ch.isascii() and ch.isalnum():
+                n += ch
+            else:
+                break
+        out.append(int(n))
+    return out
 
 
 class IllFormed(Exception):
@@ -379,7 +419,11 @@ def print_step(items, t, ext, mode):
             continue
         if not first:
             prev = out[-1][-1:]
-            out.append(sep(t, glue_ok=prev.isalnum() or prev in "})"))
+            between_comps = k == "c" and i > 0 and items[i - 1][0] == "c"
+            if between_comps and t.flip("step.wrap-directly-between-two-components", 0.25):
+                out.append("\n")        # `...}` newline `@...`: nothing but the line break (CRLF with doc.crlf)
+            else:
+                out.append(sep(t, glue_ok=prev.isalnum() or prev in "})"))
         if k == "w":
             out.append(print_word(it[1], t, at_block_start=first))
         elif k == "temp":
@@ -522,9 +566,11 @@ def denote(spec, meta_style):
     servings = None
     for k, v in spec["meta"]:
         # `>>` can only carry strings; YAML front matter carries the typed scalar
-        metadata[k] = v if meta_style == "fm" else str(v)
-        if k == "servings":
-            servings = [int(v)]
+        if k in metadata:
+            raise IllFormed("metadata key twice")
+        metadata[k] = v if meta_style == "fm" else str(v)     # the key exactly as written, whatever its spelling
+        if k in SERVINGS_NAMES:
+            servings = servings_of(v)
     sections = []          # finished sections
     cur = {"name": None, "content": []}
     stepno = 1
@@ -736,12 +782,18 @@ def denote(spec, meta_style):
         "timers": tms,
         "servings": servings,
         "inline_quantities": inl,
+        "raw_line_breaks_in_step_text": 0,
     }
 
 
 def project(rj):
     """grec.project + the inline quantities (value and unit)"""
     p = grec.project(rj)
+    # a line wrap inside a step is one blank of the step text: a raw CR or LF in a text item is wrong
+    # (grec.project collapses blank runs, which would hide it)
+    p["raw_line_breaks_in_step_text"] = sum(
+        1 for s_ in rj["sections"] for b in s_["content"] if b["type"] == "step"
+        for it in b["value"]["items"] if it["type"] == "text" and ("\n" in it["value"] or "\r" in it["value"]))
     p["inline_quantities"] = [{"value": q["value"], "unit": q["unit"]} for q in rj.get("inline_quantities", [])]
     return p
 
@@ -805,6 +857,25 @@ class SpecGen:
                                                   "it's", "crème brûlée"])))
             if r.random() < 0.3:
                 spec["meta"].append(("servings", r.choice([1, 2, 4, 6])))
+        if r.random() < 0.5:
+            used = set(k for k, _ in spec["meta"])
+            groups = r.sample(sorted(STD_KEYS), r.randint(1, 3))
+            if "time" in groups:                       # `time` next to `prep time`/`cook time` warns: never together
+                groups = [g_ for g_ in groups if g_ not in ("prep time", "cook time")]
+            std = []
+            for g_ in groups:
+                names, values = STD_KEYS[g_]
+                if len(names) > 1 and r.random() < 0.35:
+                    pair = [names[0], r.choice(names[1:])]       # main name and an alternative one, both orders
+                    r.shuffle(pair)
+                else:
+                    pair = [r.choice(names)]
+                for k in pair:
+                    if k not in used:
+                        used.add(k)
+                        std.append((k, r.choice(values)))
+            pos = r.randint(0, len(spec["meta"]))
+            spec["meta"][pos:pos] = std
         self.defs = {"igr": [], "cw": []}      # dicts: name, bits, qty, in_step, chain_unit (set), is_def
         self.define, self.dup = "all", "new"
         self.steps_in_section = 0
@@ -1101,6 +1172,13 @@ def construct_counts(spec, cnt):
     if spec["meta"]:
         cnt["recipes with metadata"] += 1
     cnt["metadata entries"] += len(spec["meta"])
+    keys = [k for k, _ in spec["meta"]]
+    for g_, (names, _) in STD_KEYS.items():
+        present = [k for k in keys if k in names]
+        cnt["metadata: standard keys under their main name"] += sum(1 for k in present if k == names[0])
+        cnt["metadata: standard keys under an alternative name"] += sum(1 for k in present if k != names[0])
+        if len(present) > 1:
+            cnt["metadata: main and alternative name of one standard key together"] += 1
     for b in spec["blocks"]:
         k = b["t"]
         if k == "mode":
